@@ -86,6 +86,7 @@ pub mod consistent_hash;
 pub mod delta_vector;
 pub mod distance;
 pub mod durable_blob_log;
+pub(crate) mod sync_compat;
 #[cfg(feature = "neumann_verif")]
 pub mod verif_hooks;
 pub mod embedding_slab;
